@@ -103,7 +103,7 @@ Section Cts.
     mput_out m2 (mid + bs) (firstn n block2).
 
   (* ---- CBC-CS2 ---- *)
-  (* the stealing step shared by CS2 (tail non-empty) and CS3 (also for a one-block message) *)
+  (* the stealing step shared by CS2 and CS3 (tail non-empty) *)
   Definition cbc_steal_enc (iv1 : block) (m1 : mem) (nb tl : nat) : outcome mem :=
     do tin <- mget_in m1 (nb * bs) tl;
     let blk := tin ++ zeros (bs - tl) in
@@ -155,12 +155,15 @@ Section Cts.
     let nb := L / bs in let tl := L mod bs in
     do r <- mrun cts_cbc_enc iv m 0 nb;
     let '(iv1, m1) := r in
-    if (tl =? 0) && (1 <? nb) then swap_last_two m1 nb
+    if tl =? 0 then (if 1 <? nb then swap_last_two m1 nb else Ok m1)     (* one block: plain CBC *)
     else cbc_steal_enc iv1 m1 nb tl.
 
   Definition cbc_cs3_dec (iv : block) (m : mem) : outcome mem :=
     let L := mlen m in
     if L <? bs then Err else
+    if L =? bs then                                      (* one block: plain CBC *)
+      do r <- mrun cts_cbc_dec iv m 0 (L / bs); Ok (snd r)
+    else
     let blocks_len := (L + bs - 1) / bs in               (* div_ceil *)
     let main := blocks_len - 2 in                        (* saturating_sub *)
     do r <- mrun cts_cbc_dec iv m 0 main;
@@ -232,7 +235,7 @@ Section Cts.
     let nb := L / bs in let tl := L mod bs in
     do r <- mrun cts_ecb_enc tt m 0 nb;
     let '(_, m1) := r in
-    if (tl =? 0) && (1 <? nb) then swap_last_two m1 nb else ecb_steal E m1 nb tl.
+    if tl =? 0 then (if 1 <? nb then swap_last_two m1 nb else Ok m1) else ecb_steal E m1 nb tl.
 
   Definition ecb_cs3_dec (m : mem) : outcome mem :=
     let L := mlen m in
@@ -240,7 +243,7 @@ Section Cts.
     let nb := L / bs in let tl := L mod bs in
     do r <- mrun cts_ecb_dec tt m 0 nb;
     let '(_, m1) := r in
-    if (tl =? 0) && (1 <? nb) then swap_last_two m1 nb else ecb_steal D m1 nb tl.
+    if tl =? 0 then (if 1 <? nb then swap_last_two m1 nb else Ok m1) else ecb_steal D m1 nb tl.
 End Cts.
 
 Inductive cts_variant := CbcCs1 | CbcCs2 | CbcCs3 | EcbCs1 | EcbCs2 | EcbCs3.
